@@ -256,6 +256,11 @@ def run_go(ops, binary="bklgo", timeout_ms=20000, mem_mb=3000):
             rest = [o for o in todo if o["id"] not in done_ids]
             if not rest:
                 break
+            # the harness exits by itself after reporting a timeout / memory overrun: the culprit
+            # has an answer already and the remaining ops just need a fresh process
+            if rc in (3, 4) and any(("timeout" in r.get(o["id"], {}) or "oom" in r.get(o["id"], {})) for o in todo if o["id"] in done_ids):
+                todo = rest
+                continue
             # process died: the first unanswered op is the culprit
             culprit = rest[0]
             kind = "crash"
